@@ -1,0 +1,16 @@
+//go:build verif
+// +build verif
+
+package crypto
+
+// VerifSetCounters sets the frame counters of a secure session created by this package.
+// The verification harness uses it to reach counter values that cannot be reached by
+// sending that many frames. It returns false for other Cryptographer implementations.
+func VerifSetCounters(c Cryptographer, encryptCount, decryptCount uint64) bool {
+	s, ok := c.(*secureSession)
+	if !ok {
+		return false
+	}
+	s.encryptCount, s.decryptCount = encryptCount, decryptCount
+	return true
+}
